@@ -41,11 +41,54 @@ func C18(c *Ctx) {
 	c.R.Rule("C18-R5", "E3+E5", "a failed action leaves the machine's bindings in place: Step goes on from a copy of the given bindings", 2)
 	c18Failure(c)
 	exec := c.fn("core", "FuncAction", "Exec")
-	isPerm := c.fn("core", "", "isPermanent")
-	if exec == nil || isPerm == nil {
+	if exec == nil {
 		return
 	}
-	c.R.Fn(fname(exec), fname(isPerm))
+	c.R.Fn(fname(exec))
+	// isPermTest: cond is `strings.HasSuffix(name, "!")`, spelled out or through a helper that returns exactly that
+	suffixCall := func(v ssa.Value, name ssa.Value) bool {
+		cl, ok := v.(*ssa.Call)
+		if !ok || ssau.CalleeName(cl) != "strings.HasSuffix" || cl.Common().Args[0] != name {
+			return false
+		}
+		s, isS := ssau.ConstString(cl.Common().Args[1])
+		return isS && s == "!"
+	}
+	isPermTest := func(cond ssa.Value, name ssa.Value) bool {
+		if suffixCall(cond, name) {
+			return true
+		}
+		cl, ok := cond.(*ssa.Call)
+		if !ok {
+			return false
+		}
+		h := cl.Common().StaticCallee()
+		if h == nil || h.Blocks == nil || prog.PkgOf(h) != "core" || h.Signature.Results().Len() != 1 {
+			return false
+		}
+		idx := -1
+		for i, a := range cl.Common().Args {
+			if a == name {
+				idx = i
+			}
+		}
+		if idx < 0 || idx >= len(h.Params) {
+			return false
+		}
+		n := 0
+		for _, b := range h.Blocks {
+			if ret, isRet := b.Instrs[len(b.Instrs)-1].(*ssa.Return); isRet {
+				n++
+				if !suffixCall(ret.Results[0], h.Params[idx]) {
+					return false
+				}
+			}
+		}
+		if n > 0 {
+			c.R.Fn(fname(h))
+		}
+		return n > 0
+	}
 	// the wrapped call
 	var K *ssa.Call
 	ssau.Instrs(exec, func(in ssa.Instruction) {
@@ -140,20 +183,11 @@ func C18(c *Ctx) {
 	c.R.Check(private, "C18-R1", "Exec: snapshot map is private to the activation", c.pos(snap), "map created by make in this call", "the snapshot is kept in storage that outlives or is shared between executions ("+M.String()+")")
 	underPerm := false
 	for _, f := range flow.FactsAt(snap.Block()) {
-		if cl, ok := f.Cond.(*ssa.Call); ok && f.True && cl.Common().StaticCallee() == isPerm && cl.Common().Args[0] == snap.Key {
+		if f.True && isPermTest(f.Cond, snap.Key) {
 			underPerm = true
 		}
 	}
-	c.R.Check(underPerm, "C18-R1", "Exec: snapshot selects permanent names", c.pos(snap), "under isPermanent(name)", "the snapshot is not taken for exactly the names ending in '!'")
-	okSuffix := false
-	ssau.Instrs(isPerm, func(in ssa.Instruction) {
-		if cl, ok := in.(*ssa.Call); ok && ssau.CalleeName(cl) == "strings.HasSuffix" {
-			if s, isS := ssau.ConstString(cl.Common().Args[1]); isS && s == "!" {
-				okSuffix = true
-			}
-		}
-	})
-	c.R.Check(okSuffix, "C18-R1", "isPermanent: name ends in '!'", c.P.Pos(isPerm.Pos()), "strings.HasSuffix(p, \"!\")", "isPermanent no longer tests the '!' suffix")
+	c.R.Check(underPerm, "C18-R1", "Exec: snapshot selects permanent names", c.pos(snap), "under strings.HasSuffix(name, \"!\") (directly or through a helper that returns exactly that)", "the snapshot is not taken for exactly the names ending in '!'")
 	// the snapshot loop sees every entry, and is executed before the wrapped call
 	SL := flow.InnermostLoop(flow.Loops(S), snap.Block())
 	okBefore := SL != nil
